@@ -20,7 +20,7 @@ def nlPositions : Nat → Str → List Nat
 def breaks (t : Str) : List Nat := nlPositions 0 (wrapString t 68)
 
 def toRRef (r : Reference) : GbLayout.RRef :=
-  { range := r.range, authors := r.authors, title := r.title, journal := r.journal, pubmed := r.pubMed, remark := r.remark }
+  { number := r.index, range := r.range, authors := r.authors, title := r.title, journal := r.journal, pubmed := r.pubMed, remark := r.remark }
 
 def toRFeature (f : Feature) : GbLayout.RFeature :=
   { key := f.type, loc := (absFeat f).loc, quals := sortedEntries f.attributes }
@@ -38,8 +38,8 @@ def toRec (x : Sequence) : GbLayout.GbRec :=
     features := x.features.map toRFeature,
     seq := x.sequence }
 
-/-- the text of the REFERENCE line number `i + 1` -/
-def refHeadText (i : Nat) (r : Reference) : Str := Location.itoa (i + 1) ++ "  ".toList ++ r.range
+/-- the text of the REFERENCE line at position `i`: the reference's own number when set, else `i + 1` (be39eee) -/
+def refHeadText (i : Nat) (r : Reference) : Str := refNum i r ++ "  ".toList ++ r.range
 
 def refLayout (i : Nat) (r : Reference) : GbLayout.RefLayout :=
   { range := if r.range = [] then [] else breaks (refHeadText i r), trailGap := true, authors := breaks r.authors, title := breaks r.title, journal := breaks r.journal,
@@ -86,11 +86,11 @@ def refsFit : Nat → List Reference → Bool
 
 /-- the part of the round-trip domain covered by the theorem `parse_build_partial`: the judge's
 round-trip domain minus the two known findings (`wfLayoutG`: metadata may hold runs of blanks none of
-which falls on a wrap point), positional reference numbers, REFERENCE lines wrapped without loss, and
+which falls on a wrap point; any reference numbers), REFERENCE lines wrapped without loss, and
 the record as C01's abstract record type expresses it lies in C01's domain (`GbLayout.wf (toRec x)`) -/
 def covered (x : Sequence) : Bool :=
   let m := x.metadata
-  wfLayoutG x && !(m.locus.circular && m.locus.linear) && wfRefIndex 0 m.references
+  wfLayoutG x && !(m.locus.circular && m.locus.linear)
     && m.other.all (wfOtherJ 11) && x.features.all wfFeatureRT
     && refsFit 0 m.references && GbLayout.wf (toRec x)
 
@@ -109,7 +109,7 @@ def listApprox {α β : Type} (f : α → β → Bool) : List α → List β →
   | _, _ => false
 
 /-- `≈` between the record given to the writer and the record the parser model returns: sequence,
-locus (without `SequenceCoding`), metadata, references, extra blocks (as a map: the parser returns
+locus (without `SequenceCoding`), metadata, references (a set `Index` as given, an unset one as the position), extra blocks (as a map: the parser returns
 them in file order, which is ascending key order), features -/
 def approx (x : Sequence) (y : Genbank.Sequence) : Bool :=
   let a := x.metadata
@@ -121,7 +121,7 @@ def approx (x : Sequence) (y : Genbank.Sequence) : Bool :=
     && a.locus.circular == b.locus.circular && a.locus.linear == b.locus.linear
     && a.definition == b.definition && a.accession == b.accession && a.version == b.version
     && a.keywords == b.keywords && a.source == b.source && a.organism == b.organism
-    && listApprox refApprox a.references b.references
+    && listApprox refApprox (withDefaultIndex x).metadata.references b.references
     && b.other == sortedEntries a.other
     && listApprox featApprox x.features y.features
 
